@@ -909,14 +909,14 @@ Theorem cbor_roundtrip_rest v rest :
   wf_ipld v = true -> in_budget v = true ->
   cbor_decode (cbor_encode v ++ rest) = Some (canon v, rest).
 Proof.
-  intros WF B. unfold in_budget in B. unfold cbor_decode, cbor_decode_r.
-  pose proof (max_size_le_gas v) as MS. unfold go_gas in *.
-  rewrite (dec_enc go_limits) with (v := v); try assumption.
-  - reflexivity.
-  - unfold lim_ok, go_limits. cbn [max_len]. lia.
-  - unfold fits, go_limits. cbn [max_len max_str]. split; lia.
-  - rewrite app_length. lia.
-  - lia.
+  intros WF B. unfold in_budget in B. apply N.leb_le in B.
+  pose proof (max_size_le_gas v) as MS.
+  assert (G : go_gas = 10485760) by reflexivity.
+  assert (LO : lim_ok go_limits) by (unfold lim_ok, go_limits; cbn [max_len]; lia).
+  assert (F : fits go_limits v) by (unfold fits, go_limits; cbn [max_len max_str]; rewrite G in B; split; lia).
+  assert (FU : (length (cbor_encode v) <= length (cbor_encode v ++ rest))%nat) by (rewrite app_length; lia).
+  unfold cbor_decode, cbor_decode_r.
+  rewrite (dec_enc go_limits LO v WF F _ go_gas rest FU B). reflexivity.
 Qed.
 
 Theorem cbor_roundtrip v :
@@ -978,7 +978,7 @@ Proof.
                       (Nat.le_refl _) ltac:(lia)) as DA.
   pose proof (dec_enc big_limits LO b WB FB (length (cbor_encode a)) (gas_cost a + gas_cost b) []
                       ltac:(rewrite E; apply Nat.le_refl) ltac:(lia)) as DB.
-  rewrite E in DA. rewrite DA in DB. inversion DB. reflexivity.
+  rewrite E in DA, DB. rewrite DA in DB. inversion DB. reflexivity.
 Qed.
 
 (* prefix-freeness: a value is followed by arbitrary bytes unambiguously *)
